@@ -81,6 +81,31 @@ fn main() {
             let s = checks::table::run(&lines, &o, other);
             write_summary(&a, &s);
         }
+        "replay-sample" => {
+            let lines = read_lines(a.input.as_ref().unwrap());
+            let o = checks::sample::SampleOpts {
+                seed: a.seed,
+                base_idx: opt("base_idx").and_then(|s| s.parse().ok()).unwrap_or(0),
+                points_per_line: opt("points").and_then(|s| s.parse().ok()).unwrap_or(12),
+                boundary: opt("boundary").map(|s| s != "0").unwrap_or(true),
+            };
+            let s = checks::sample::run(&lines, &o);
+            write_summary(&a, &s);
+        }
+        "replay-chol" => {
+            let lines = read_lines(a.input.as_ref().unwrap());
+            let s = checks::matrix::replay(&lines, a.seed, opt("base_idx").and_then(|s| s.parse().ok()).unwrap_or(0));
+            write_summary(&a, &s);
+        }
+        "replay-dec" => {
+            let lines = read_lines(a.input.as_ref().unwrap());
+            let s = checks::matrix::replay_dec(&lines, &opt("trace").expect("--opt trace=FILE"));
+            write_summary(&a, &s);
+        }
+        "record-matrix" => {
+            let s = checks::matrix::record(a.seed, opt("count").and_then(|s| s.parse().ok()).unwrap_or(2000), &opt("trace").expect("--opt trace=FILE"));
+            write_summary(&a, &s);
+        }
         "record-flow" => {
             let lines = read_lines(a.input.as_ref().unwrap());
             let o = checks::flow::FlowOpts {
